@@ -20,6 +20,11 @@ RULE = (
     "of_type of the requested or of another type, the filtered getter, len()) is advanced one step at a time in a generated "
     "interleaving (nested loops, zip of two iterations, a getter or len() inside a loop, iterators created up front or on first use), "
     "each query's own result compared with what the model gives for that query alone (fixed patterns on the exhaustive part, 60% of the random cases). "
+    "Edited members: the elements are built with EARLIER attribute values, the container is assembled, a warm-up of 1-4 read-only queries "
+    "(the same filtered getter, the getter with another filter or type, of_type, iteration, len()) is made, then 1-3 elements get the case's attribute values "
+    "(data replaced through the setter or edited in place; no structural operation in between) and only then the observed queries and the removal run: "
+    "they must answer what the model gives for the case's values alone, the selection looks at the attributes AT THE TIME OF THE CALL "
+    "(a fixed pattern on a third of the exhaustive part, 50% of the random cases). "
     "Exhaustive part: all containers of <=4 elements x 3 classes x 2 attribute values x all types x filters. "
     "non-trivial = at least one member is an instance of the requested type; distinct by full case."
 )
@@ -127,6 +132,56 @@ def run_overlap(ov, c, classes, ident, fuel, get):
     return res
 
 
+def run_warm(warm, c, classes, t, kwargs, getter, fuel):
+    """queries: ["get"] the case's own filtered lookup | ["get_flt", [[k, v], ...]] same type, another filter |
+    ["get_type", class index] another type, the case's filter | ["of_type", class index] | ["iter"] | ["len"]; results are discarded"""
+    for q in warm.get("queries", []):
+        if q[0] == "get":
+            getattr(c, getter)(t, **kwargs)
+        elif q[0] == "get_flt":
+            getattr(c, getter)(t, **{f"a{k}": v for k, v in q[1]})
+        elif q[0] == "get_type":
+            getattr(c, getter)(classes[q[1]] if q[1] < len(classes) else str, **kwargs)
+        elif q[0] == "of_type":
+            g = c.of_type(classes[q[1]] if q[1] < len(classes) else str)
+            for _ in range(fuel):
+                if next(g, None) is None:
+                    break
+        elif q[0] == "iter":
+            capped_iter(c, fuel)
+        elif q[0] == "len":
+            len(c)
+
+
+def edit_element(e, attrs, inplace):
+    if inplace:
+        for k, v in enumerate(attrs):
+            if e.data[k] != v or (e.data[k] is None) != (v is None):
+                e.data[k] = v
+    else:
+        e.data = list(attrs)
+    e.tag = attrs[0]
+
+
+def warm_text(case):
+    w = case.get("warm")
+    if not w:
+        return ""
+    qs = []
+    for q in w.get("queries", []):
+        if q[0] == "get":
+            qs.append("the same filtered getter")
+        elif q[0] == "get_flt":
+            qs.append(f"the getter with filter {q[1]}")
+        elif q[0] == "get_type":
+            qs.append(f"the getter for {_thread_name(case, ['of_type', q[1]])}")
+        else:
+            qs.append(_thread_name(case, q))
+    eds = [f"element {i}: {a} -> {case['elems'][i][1]}" for i, a in w.get("pre", [])]
+    return (f"; BEFORE that, warm-up queries [{', '.join(qs)}] were made on the assembled container while {len(eds)} element(s) held earlier attribute values, "
+            f"then those were edited ({'in place' if w.get('inplace') else 'data setter'}, no structural operation): {'; '.join(eds)}")
+
+
 def overlap_expected(case, exp):
     """what each query of the overlap answers on its own, from the model's expected observation"""
     parents, members = case["parents"], exp["iter_after_get"]
@@ -167,12 +222,15 @@ def run_impl(case):
     def el(i):
         if i not in elems:
             ci, attrs = case["elems"][i]
+            attrs = pre.get(i, attrs)  # the values the element holds until the warm-up is over
             e = classes[ci](data=list(attrs))
             e.tag = attrs[0]  # a plain instance attribute (not a property of the class) with the value of a0
             elems[i] = e
             ident[id(e)] = i
         return elems[i]
 
+    warm = case.get("warm") or {}
+    pre = {int(i): list(a) for i, a in warm.get("pre", [])}
     fuel = c07.fuel_of(case)
     c = ccls(el(0))
     for op in case["ops"]:
@@ -196,6 +254,14 @@ def run_impl(case):
     remover = {"register": "remove_registers_of_type", "block": "remove_blocks_of_type", "section": "remove_sections_of_type"}[case["family"]]
     out = {}
     try:
+        if warm:
+            # earlier use of the same container: read-only queries while some elements still hold their earlier
+            # values, then the user edits those elements (no structural operation); what follows must see the new values
+            run_warm(warm, c, classes, t, kwargs, getter, fuel)
+            for i in sorted(pre):
+                if i in elems:
+                    edit_element(elems[i], case["elems"][i][1], warm.get("inplace"))
+            pre.clear()
         gen = c.of_type(t)
         lst = []
         for _ in range(fuel):
@@ -291,7 +357,7 @@ def judge(case, obs, resp):
     if not resp["holds"]:
         exp = resp["expected"]
         bad = [k for k in exp if exp[k] != obs.get(k)]
-        return {"status": "oracle", "why": f"{bad} differ from the list semantics on container {resp['spec_list']}: got { {k: obs.get(k) for k in bad} } expected { {k: exp[k] for k in bad} }"}
+        return {"status": "oracle", "why": f"{bad} differ from the list semantics on container {resp['spec_list']}: got { {k: obs.get(k) for k in bad} } expected { {k: exp[k] for k in bad} }" + warm_text(case)}
     if "overlap" in obs:
         want = overlap_expected(case, resp["expected"])
         bad = [k for k in range(len(want)) if obs["overlap"][k] != want[k]]
@@ -300,7 +366,7 @@ def judge(case, obs, resp):
             k = bad[0]
             return {"status": "oracle", "why": f"overlapping read-only queries {[_thread_name(case, x) for x in ths]} advanced in the order {case['overlap']['sched']}"
                     f"{' (iterators created up front)' if case['overlap'].get('eager') else ''} on container {resp['spec_list']}: query {k} = {_thread_name(case, ths[k])} "
-                    f"gave {obs['overlap'][k]}, alone it gives {want[k]}" + (f" ({len(bad) - 1} more queries differ)" if len(bad) > 1 else "")}
+                    f"gave {obs['overlap'][k]}, alone it gives {want[k]}" + (f" ({len(bad) - 1} more queries differ)" if len(bad) > 1 else "") + warm_text(case)}
     if not resp["agree"]:
         return {"status": "corr", "why": "model/implementation disagree"}
     return {"status": "ok", "why": ""}
@@ -338,6 +404,12 @@ def features(case, obs):
         f.append("foreign_type")
     if any(v is None for _, v in case["filter"]):
         f.append("none_filter_value")
+    w = case.get("warm")
+    if w:
+        f.append(f"warm_queries={len(w.get('queries', []))}")
+        f.append(f"edited_elements={len(w.get('pre', []))}")
+        if any(q[0] == "get" for q in w.get("queries", [])) and any(v is not None for _, v in case["filter"]):
+            f.append("same_lookup_before_and_after_edit")
     ov = case.get("overlap")
     if ov:
         f.append(f"overlap_queries={len(ov['threads'])}")
@@ -419,6 +491,59 @@ def random_overlap(rng: random.Random, nclasses, t, nmembers):
     return {"threads": threads, "sched": sched, "eager": rng.random() < 0.3}
 
 
+def warm_pattern(count, n, elems, t, flt):
+    """fixed warm-up + edit for a third of the exhaustive part: one element held the other value of a0 (or of a1) before"""
+    if count % 3 != 1:
+        return None
+    j = (count // 3) % n
+    a = list(elems[j][1])
+    which = (count // 9) % 4
+    if which == 3:
+        a[1] = 1 - a[1]
+    else:
+        a[0] = 1 - a[0]
+    queries = [[["get"]], [["of_type", t], ["get"], ["len"]], [["get"], ["get_flt", [[0, 1]]], ["get"]], [["iter"], ["get"]]][(count // 3) % 4]
+    return {"pre": [[j, a]], "queries": queries, "inplace": (count // 3) % 2 == 1}
+
+
+def random_warm(rng: random.Random, case, nvals):
+    members = _member_ids(case)
+    elems, flt = case["elems"], case["filter"]
+    fkeys = [k for k, v in flt]
+    fval = dict((k, v) for k, v in flt)
+    pre = {}
+    for _ in range(rng.randrange(1, 4)):
+        i = rng.choice(members) if rng.random() < 0.85 else rng.randrange(len(elems))
+        a = list(pre.get(i, elems[i][1]))
+        for _ in range(rng.randrange(1, 3)):
+            k = rng.choice(fkeys) if fkeys and rng.random() < 0.7 else rng.randrange(NATTR)
+            if fval.get(k) is not None and rng.random() < 0.5:
+                v = fval[k] if a[k] != fval[k] else rng.choice([None] + [x for x in range(nvals + 1) if x != fval[k]])
+            else:
+                v = rng.choice([None] + list(range(nvals + 1)))
+            a[k] = v
+        if a != elems[i][1]:
+            pre[i] = a
+    if not pre:
+        return None
+    queries = []
+    for _ in range(rng.randrange(1, 5)):
+        r = rng.random()
+        if r < 0.45:
+            queries.append(["get"])
+        elif r < 0.6:
+            queries.append(["get_flt", [[k, rng.choice([None] + list(range(nvals + 1)))] for k in rng.sample(range(NATTR), k=rng.randrange(0, NATTR + 1))]])
+        elif r < 0.7:
+            queries.append(["get_type", rng.randrange(len(case["parents"]) + 1)])
+        elif r < 0.82:
+            queries.append(["of_type", rng.randrange(len(case["parents"]) + 1)])
+        elif r < 0.92:
+            queries.append(["iter"])
+        else:
+            queries.append(["len"])
+    return {"pre": [[i, pre[i]] for i in sorted(pre)], "queries": queries, "inplace": rng.random() < 0.5}
+
+
 def exhaustive_cases(family, maxn):
     parents = [None, 0, None]  # K1 is a subclass of K0, K2 unrelated
     count = 0
@@ -431,9 +556,12 @@ def exhaustive_cases(family, maxn):
                     for flt in ([], [[0, 0]], [[0, 1]], [[0, None]], [[0, 0], [1, 0]], [[2, 5]]):
                         case = {"family": family, "parents": parents, "elems": elems, "ops": ops, "type": t, "filter": flt}
                         ov = overlap_pattern(count, n, t)
+                        wm = warm_pattern(count, n, elems, t, flt)
                         count += 1
                         if ov:
                             case["overlap"] = ov
+                        if wm:
+                            case["warm"] = wm
                         yield case
 
 
@@ -464,6 +592,10 @@ def random_case(rng: random.Random, family):
     case = {"family": family, "parents": parents, "elems": elems, "ops": h["ops"], "type": t, "filter": flt, "plain_attr": rng.random() < 0.3}
     if rng.random() < 0.6:
         case["overlap"] = random_overlap(rng, len(parents), t, len(_member_ids(case)))
+    if rng.random() < 0.5:
+        wm = random_warm(rng, case, nvals)
+        if wm:
+            case["warm"] = wm
     return case
 
 
@@ -495,6 +627,12 @@ def chunks(tier, seed):
 
 
 def cases_of(chunk):
+    try:
+        # load the library here, outside the per-case time limit: on a busy machine the first import alone
+        # can take longer than the limit and would be reported as a non-terminating operation
+        _build("register", [None])
+    except ImportError:
+        pass
     k = chunk["kind"]
     if k == "corpus":
         yield from corpus_cases()
@@ -525,6 +663,17 @@ def shrinks(case):
         yield {**case, "filter": case["filter"][:i] + case["filter"][i + 1 :]}
     if case["parents"] != [None, 0, None] and all(e[0] < 3 for e in case["elems"]) and case["type"] <= 3:
         yield {**case, "parents": [None, 0, None]}
+    wm = case.get("warm")
+    if wm:
+        yield {k: v for k, v in case.items() if k != "warm"}
+        for i in range(len(wm["pre"])):
+            if len(wm["pre"]) > 1:
+                yield {**case, "warm": {**wm, "pre": wm["pre"][:i] + wm["pre"][i + 1 :]}}
+        for i in range(len(wm["queries"])):
+            if len(wm["queries"]) > 1:
+                yield {**case, "warm": {**wm, "queries": wm["queries"][:i] + wm["queries"][i + 1 :]}}
+        if wm.get("inplace"):
+            yield {**case, "warm": {**wm, "inplace": False}}
     if ov:
         yield {k: v for k, v in case.items() if k != "overlap"}
         sched, ths = ov["sched"], ov["threads"]
